@@ -372,6 +372,7 @@ type vfcRun struct {
 	nmut          int
 	mutDesc       string
 	obs           []string
+	auto          []map[string]any // deliveries the intruder added on its own at the end (see finish)
 }
 
 func vfcMust(err error, what string) {
@@ -1019,6 +1020,9 @@ func (r *vfcRun) finish() map[string]any {
 				s.in = append(s.in, "I:ack+!")
 				s.conn.deliver(vfcFrame(&handshake.RequesterAcknowledgePayload{Success: true}))
 				s.conn.settle()
+				out, key := r.outcome(s, r.collect(s))
+				r.auto = append(r.auto, map[string]any{"ev": "ack", "s": s.i, "x": "t", "src": 0, "acct": "-", "pfk": "-", "pfj": 0,
+					"c": false, "skip": false, "auto": true, "out": out, "key": key})
 			}
 			// ... and a handleIncomingRequest that got through the handshake without the script
 			// announcing a contact is announced the key that was claimed in the step-3 box
@@ -1132,6 +1136,9 @@ func vfcExec(j vfcJob) ([]map[string]any, int) {
 		}
 	}
 	fin := r.finish()
+	if j.steps {
+		evs = append(evs, r.auto...)
+	}
 	low, f, _ := vfcUses(j.sc)
 	// does the model describe this concretisation?  (a "low" encoding that is not degenerate
 	// in this X25519 implementation, or the small-order identity key, are executed and judged
